@@ -202,8 +202,9 @@ class gre (packet_base):
                     sl = 0
                     r += ro
                 else: # Better be a sequence...
-                    af,so,sl = ro
+                    af,so,sl = ro[:3]
                     r += struct.pack("!HBB", af, so, sl)
+                    if len(ro) > 3: r += ro[3] # As parsed: with its data
             if sl != 0:
                 self.msg('warning GRE routing did not end with empty entry')
 
